@@ -301,7 +301,13 @@ func isOutOfOrderErr(err error) bool {
 
 func checkC08(c *Case, s *Stats) error {
 	if c.Gen == "concurrent-round" {
-		return concurrentRound(c.Block, s)
+		// a replay: the outcome depends on the schedule, so the round is repeated
+		for rep := 0; rep < 40; rep++ {
+			if err := concurrentRound(c.Block, s); err != nil {
+				return err
+			}
+		}
+		return nil
 	}
 	keys := c.keys()
 	asc := strictlyAscending(keys)
